@@ -486,6 +486,10 @@ def split_top_last(dty):
 def _into(it, args, dty, func):
     v = args[0]
     d = strip_generics(dty)
+    if not d:
+        mm = re.match(r"^<(.*?) as (?:std|core)::convert::From<", func)
+        if mm:
+            d = strip_generics(mm.group(1))
     if isinstance(v, SliceRef) and d.endswith("String"):
         return Seq("string", list(v.items()))
     if isinstance(v, SliceRef) and d.endswith("::Vec"):
@@ -1553,6 +1557,9 @@ def _instant_now(it, args, dty, func):
     it.ctx.add(z3.UGE(t, bv(last, 128)))
     it.ctx.add(z3.ULE(t, z3.BitVecVal(1 << 62, 128)))
     it._clock_last = t
+    if not hasattr(it, "clock_vars"):
+        it.clock_vars = []
+    it.clock_vars.append(t)
     return instant_ns(t)
 
 
